@@ -337,6 +337,10 @@ LEDGER = {
     "C15": (["LG_CollBacked"], "LG_C15", []),
     "C16": (["LG_FailFree"], "LG_C16", []),
 }
+# C07 at whole-application level (extreme sizes, all modules interleaved): plan usage never negative, within the space bought, equal to the footprint
+PROPS["C07"]["families"] = [PROPS["C07"].pop("family"), "ledger"]
+PROPS["C07"]["formulas"] = PROPS["C07"]["formulas"] + ["LG_Plans"]
+PROPS["C07"].setdefault("per_family", {})["ledger"] = {"nt": "LG_C07", "mc_cfg": {"quick": ["Ledger-mc-quick.cfg"], "thorough": ["Ledger-mc-quick.cfg"]}, "bug_variants": []}
 # C11 (resource clause at whole-application level): auth records of accounts change only by their own signed transactions
 PROPS["C11"]["families"] = PROPS["C11"]["families"] + ["ledger"]
 PROPS["C11"]["formulas"] = PROPS["C11"]["formulas"] + ["LG_Auth"]
